@@ -56,6 +56,7 @@ type clBlock struct {
 	proposal util.Hash
 	states   map[string]base.State
 	suf      base.Suffrage // the suffrage as of this block
+	ops      []string      // hashes of the operations of this block
 	via      string
 	epoch    int
 }
@@ -86,6 +87,7 @@ type clNode struct {
 	chain  []*clBlock
 	poolSt *leveldbstorage.Storage
 	states map[string]base.State
+	opsDone map[string]bool // operations that are in the node's chain
 
 	// volatile, re-created at every boot
 	epoch    int
@@ -114,6 +116,12 @@ type clNode struct {
 	allowToggling bool
 }
 
+type clMajority struct {
+	fact   string
+	node   int
+	expels bool
+}
+
 type cluster struct {
 	r      *simkit.Run
 	focus  string
@@ -127,6 +135,7 @@ type cluster struct {
 	policy isaac.NetworkPolicy
 
 	genesis    *clBlock
+	majorities map[string]clMajority // stage point -> first majority seen by any node
 	expelSeen  bool
 	commits    int
 	byHeight   map[base.Height]string // first committed manifest hash per height (by any node)
@@ -434,6 +443,14 @@ func (nd *clNode) commit(b *clBlock, epoch int) error {
 
 	nd.chain = append(nd.chain, b)
 
+	for _, h := range b.ops {
+		nd.opsDone[h] = true
+	}
+
+	if len(b.ops) > 0 {
+		r.ProbeN("operations_in_blocks", len(b.ops))
+	}
+
 	for k, st := range b.states {
 		nd.states[k] = st
 	}
@@ -456,6 +473,7 @@ type clFS struct {
 	avp      base.ACCEPTVoteproof
 	proposal base.ProposalSignFact
 	saved    int
+	ops      []string
 }
 
 func (f *clFS) SetProposal(_ context.Context, pr base.ProposalSignFact) error {
@@ -463,7 +481,11 @@ func (f *clFS) SetProposal(_ context.Context, pr base.ProposalSignFact) error {
 
 	return nil
 }
-func (f *clFS) SetOperation(context.Context, uint64, uint64, base.Operation) error { return nil }
+func (f *clFS) SetOperation(_ context.Context, _, _ uint64, op base.Operation) error {
+	f.ops = append(f.ops, op.Hash().String())
+
+	return nil
+}
 func (f *clFS) SetOperationsTree(context.Context, fixedtree.Tree) error            { return nil }
 func (f *clFS) SetState(_ context.Context, _, _ uint64, st base.State) error {
 	f.states[st.Key()] = st
@@ -765,11 +787,7 @@ func (cl *cluster) crash(nd *clNode) {
 	cl.r.Event(fmt.Sprintf("node%d crashes (process #%d) at height %d", nd.i, nd.epoch, nd.lastHeight()))
 }
 
-func (nd *clNode) opInChain(oph util.Hash) bool {
-	_, ok := nd.states["op:"+oph.String()]
-
-	return ok
-}
+func (nd *clNode) opInChain(oph util.Hash) bool { return nd.opsDone[oph.String()] }
 
 // ---- proposals ----
 
@@ -935,7 +953,7 @@ func (nd *clNode) newProcessor(pr base.ProposalSignFact, previous base.Manifest,
 		return isaacblock.NewWriter(proposal, getStatef, bw, func(isaac.BlockWriteDatabase) error {
 			return nd.commit(&clBlock{
 				height: proposal.Point().Height(), manifest: fs.manifest, bm: base.NewDummyBlockMap(fs.manifest),
-				ivp: fs.ivp, avp: fs.avp, proposal: proposal.Fact().Hash(), states: fs.states, via: "consensus",
+				ivp: fs.ivp, avp: fs.avp, proposal: proposal.Fact().Hash(), states: fs.states, via: "consensus", ops: fs.ops,
 			}, epoch)
 		}, fs, args.MaxWorkerSize), nil
 	}
@@ -1069,7 +1087,7 @@ func (cl *cluster) newSyncer(nd *clNode, epoch int, height base.Height) (isaac.S
 				continue
 			}
 
-			if err := nd.commit(&clBlock{height: h, manifest: b.manifest, bm: b.bm, ivp: b.ivp, avp: b.avp, proposal: b.proposal, states: b.states, via: "sync"}, epoch); err != nil {
+			if err := nd.commit(&clBlock{height: h, manifest: b.manifest, bm: b.bm, ivp: b.ivp, avp: b.avp, proposal: b.proposal, states: b.states, ops: b.ops, via: "sync"}, epoch); err != nil {
 				return err
 			}
 
@@ -1181,6 +1199,27 @@ func (cl *cluster) sawVoteproof(nd *clNode, vp base.Voteproof) {
 
 	if _, ok := vp.(base.StuckVoteproof); ok {
 		r.Probe("stuck_voteproof_seen")
+	}
+
+	// C03 over what the honest nodes build and accept: one majority per stage point (every node signs one fact per
+	// stage point, C08, so without expels two majorities cannot both be reached; with expels it is the recorded finding)
+	if vp.Result() == base.VoteResultMajority && vp.Majority() != nil {
+		key := vp.Point().String()
+		mh := vp.Majority().Hash().String()
+
+		if o, ok := cl.majorities[key]; ok && o.fact != mh {
+			_, hasExpels := vp.(base.HasExpels)
+
+			switch {
+			case hasExpels || o.expels || cl.expelSeen:
+				r.Probe("conflicting_majorities_with_expels_not_judged")
+			case cl.on("C03"):
+				r.Fail("cluster/conflicting-majorities", "without-expels", "node%d handled a majority voteproof for %s with majority %.12s; node%d had handled one with majority %.12s (no expels involved)", nd.i, key, mh, o.node, o.fact)
+			}
+		} else if !ok {
+			_, hasExpels := vp.(base.HasExpels)
+			cl.majorities[key] = clMajority{fact: mh, node: nd.i, expels: hasExpels}
+		}
 	}
 
 	if cl.on("C04") {
@@ -1321,9 +1360,9 @@ func clusterRun(r *simkit.Run) {
 	runtime.GC()
 	runtime.GC()
 
-	cl := &cluster{r: r, focus: os.Getenv("VERIF_FOCUS"), ops: map[string]base.Operation{}, byHeight: map[base.Height]string{}, byHeightBy: map[base.Height]int{}}
+	cl := &cluster{r: r, focus: os.Getenv("VERIF_FOCUS"), ops: map[string]base.Operation{}, byHeight: map[base.Height]string{}, byHeightBy: map[base.Height]int{}, majorities: map[string]clMajority{}}
 
-	cl.n = r.Draw("nodes", 1, 4)
+	cl.n = []int{1, 2, 3, 3, 4, 4}[r.Draw("nodes", 0, 5)]
 	th := []base.Threshold{67, 67, 100, 60}[r.Draw("threshold", 0, 3)]
 	cl.c = common.NewCluster(0, cl.n, th)
 	cl.policy = isaac.DefaultNetworkPolicy()
@@ -1368,7 +1407,7 @@ func clusterRun(r *simkit.Run) {
 		cl.nodes[i] = &clNode{
 			i: i, local: cl.c.Nodes[i], cl: cl, chain: []*clBlock{cl.genesis}, poolSt: mst,
 			states: map[string]base.State{isaac.NetworkPolicyStateKey: policyState, isaac.SuffrageStateKey: sufState},
-			sent:   map[string]clSent{}, proposals: map[string]string{},
+			sent:   map[string]clSent{}, proposals: map[string]string{}, opsDone: map[string]bool{},
 		}
 	}
 
@@ -1390,12 +1429,48 @@ func clusterRun(r *simkit.Run) {
 		cl.boot(nd)
 	}
 
+	// a client submits network-policy operations (signed by enough members) to the pools of some nodes; the other
+	// nodes fetch an operation they do not hold when they process the proposal that lists it
+	if r.Flag("client_operations") {
+		r.Go("client", func() {
+			for i := 0; ; i++ {
+				time.Sleep(cl.p.waitINIT + time.Duration(r.Choose(2000))*time.Millisecond)
+				r.ForceYield("client")
+
+				p := isaac.DefaultNetworkPolicy()
+				p.SetMaxOperationsInProposal(uint64(100 + i%50))
+
+				op := isaacoperation.NewNetworkPolicy(isaacoperation.NewNetworkPolicyFact(base.Token(util.UUID().Bytes()), p))
+
+				for _, s := range cl.c.Nodes {
+					if err := op.NodeSign(s.Privatekey(), common.NetworkID, s.Address()); err != nil {
+						panic(err)
+					}
+				}
+
+				cl.ops[op.Hash().String()] = op
+
+				for _, nd := range cl.nodes {
+					if nd.alive && r.Chance(1, 2) {
+						pool := nd.pool
+
+						r.Guard("set-operation", func() { _, _ = pool.SetOperation(context.Background(), op) })
+					}
+				}
+
+				r.Probe("client_operation_submitted")
+			}
+		})
+	}
+
 	quanta := []time.Duration{time.Millisecond, 10 * time.Millisecond, 33 * time.Millisecond, 100 * time.Millisecond, 300 * time.Millisecond, time.Second}
 	phases := r.Draw("phases", 2, 5)
 	phaseLen := []time.Duration{4, 12, 30}[speed] * time.Second
 	stick := r.DrawStick()
 	// simulated time passes while tasks are parked only in some runs, and then rarely (a loaded machine)
 	clockDen := []int{0, 0, 3000, 300}[r.Draw("load", 0, 3)]
+	// a quarter of the runs schedule by priorities (PCT) instead of the random walk
+	pct := []int{0, 0, 0, 3}[r.Draw("pct", 0, 3)]
 
 	heightsAtHeal := base.NilHeight
 	healedAt := time.Duration(0)
@@ -1477,7 +1552,7 @@ func clusterRun(r *simkit.Run) {
 			end = r.Now() + phaseLen*3
 		}
 
-		r.Sched(simkit.SchedOpts{MaxSteps: 4000000, KeepGoing: true, Stick: stick, ClockDen: clockDen, MaxSim: end, Quanta: quanta, Invariant: cl.watch})
+		r.Sched(simkit.SchedOpts{MaxSteps: 4000000, KeepGoing: true, Stick: stick, ClockDen: clockDen, PCT: pct, MaxSim: end, Quanta: quanta, Invariant: cl.watch})
 
 		if r.Truncated {
 			break
@@ -1543,7 +1618,7 @@ func init() {
 		Run:         clusterRun,
 		Real:        []string{"isaacstates.States with the real booting/joining/consensus/syncing/broken/stopped handlers (voteproofHandler, baseBallotHandler)", "isaacstates.Ballotbox, DefaultBallotBroadcaster, DefaultBallotStuckResolver, ballotBroadcastTimers", "isaac.SuffrageVoting, LastVoteproofsHandler", "isaac.ProposalMaker, BaseProposalSelector, BlockBasedProposerSelector", "isaac.ProposalProcessors, DefaultProposalProcessor, isaacblock.Writer, LeveldbBlockWrite", "isaacstates.Syncer", "isaacdatabase.TempPool on goleveldb (memory storage)"},
 		Stub:        []string{"transport between the nodes (simulated network: loss, delay, duplication, partitions)", "block files: a recording FS writer; the committed chain of a node is a slice that survives crashes", "block import of the syncer copies the block record of a reachable peer", "memberlist join/leave are no-ops; handover is absent"},
-		Rule:        "each run draws 1-4 whole nodes, a threshold, one of three timing profiles, and 2-5 phases; in fault runs each phase but the last starts with a partition, the crash of a node (its tasks are never released again), the restart of crashed nodes from their durable state (chain, ballot/proposal pool), or a toggle of allow-consensus; the last phase heals everything. Clauses by focus property: C08 one locally signed ballot fact per (stage point, suffrage-confirm flag) and node across restarts; C06 the last-voteproofs position of every node moves only as the statement allows; C09 STOPPED is left only for BOOTING/BROKEN, the switched callback agrees with Current(), JOINING/CONSENSUS are not entered while consensus is not allowed; C11 a block enters a node's chain once per height, on its predecessor, from consensus only with the ACCEPT majority for exactly that manifest and proposal, and (in runs without expel voteproofs) all nodes store the same manifest per height; C04 every voteproof handled passes the validation other nodes apply; C38 one proposal per (point, previous block) and node. distinct = event-log hash",
+		Rule:        "each run draws 1-4 whole nodes, a threshold, one of three timing profiles, and 2-5 phases; in fault runs each phase but the last starts with a partition, the crash of a node (its tasks are never released again), the restart of crashed nodes from their durable state (chain, ballot/proposal pool), or a toggle of allow-consensus; the last phase heals everything. Clauses by focus property: C08 one locally signed ballot fact per (stage point, suffrage-confirm flag) and node across restarts; C06 the last-voteproofs position of every node moves only as the statement allows; C09 STOPPED is left only for BOOTING/BROKEN, the switched callback agrees with Current(), JOINING/CONSENSUS are not entered while consensus is not allowed; C11 a block enters a node's chain once per height, on its predecessor, from consensus only with the ACCEPT majority for exactly that manifest and proposal, and (in runs without expel voteproofs) all nodes store the same manifest per height; C04 every voteproof handled passes the validation other nodes apply; C38 one proposal per (point, previous block) and node; C03 (in runs without expel voteproofs) one majority per stage point over all voteproofs the nodes handle. distinct = event-log hash",
 		Assumptions: []string{"a fork that follows voteproofs with expels is the recorded C03 finding and is counted (probe fork_after_expel_voteproofs_not_judged), not judged by the C11 clause"},
 	})
 }
